@@ -17,6 +17,19 @@ CHECKS = {
         'all CBMC pointer/bounds checks hold. Capacities 1..3 (quick) / 1..5 (thorough). Counterexamples replayed under ASan/LSan on the g++ build.',
    note=TB + 'moved-from shells left by pop are tolerated; allocation failure out of scope; capacities above the bound outside the claim.',
    technique='SAT-based bounded model checking (CBMC) of clang-lowered RingBuffer<Tracked>; 1-step induction + destruction, ghost lifetime registry', design='4/C09'),
+ 'C14': dict(
+   text='Bounded model checking of the real Array.h for int, unsigned char and a lifetime-tracking class type: every constructor (pointer+length copy/adopt, initializer list, size, size+value, default) and one step '
+        '(copy/move construct and assign, self-assign, swap, both resize overloads, element write) from an arbitrary state of length n (all values symbolic), then destruction; contents, deep-copy independence, '
+        'exact construction/destruction counts, no leak, CBMC bounds/pointer checks. Lengths 0..3 (quick) / 0..5 (thorough). Counterexamples replayed under ASan/LSan on the g++ build.',
+   note=TB + 'allocation failure out of scope; realloc(p,0) modelled as a zero-size block.',
+   technique='SAT-based bounded model checking (CBMC) of clang-lowered Array<T>; ghost lifetime registry', design='4/C14'),
+ 'C05': dict(
+   text='Bounded model checking of the real Subject/Subscription/Observer/EternalObserver/ObserverAutoPtr/ObserverFactory headers compiled against a small model STL: for every operation skeleton (kinds+targets of subscribe, '
+        'unsubscribe via handle or subject, mute, unmute, invalidate, notify round, stale/foreign/default handle) up to the stated length over <= 4 observers, a CBMC query decides over all mute flags, argument values, '
+        'payloads and handle-moved bits that deliveries are exactly the expected ones in order with the passed values, handles report validity/mute state, bad handles are rejected with invalid_argument leaving the '
+        'Subject unchanged, and every observer callable is destroyed exactly once. Skeletons are enumerated (cube-and-conquer), data is solved for.',
+   note=TB + 'model STL in /verif/stl (forward_list, set, function, unique_ptr) is environment, not code under test; exceptions lowered to a hook (no unwinding); skeleton length and observer count bounded.',
+   technique='SAT-based bounded model checking (CBMC) per operation skeleton (cube) of clang-lowered Subject code over a model STL', design='4/C05'),
 }
 REASON_WIP = 'check not built yet (work in progress, see DESIGN.md section 7)'
 m = {"version": 1, "setup_cmd": "./vf setup",
